@@ -101,7 +101,7 @@ def fx_files():
     return out
 
 
-def rich_table(zombie=False, btime=1_700_000_000):
+def rich_table(zombie=False, btime=1_700_000_000, kthread=False):
     """-> (table, pid) : pid 50 fully populated, parent 40, children 60/61, sibling 55."""
     files = fx_files()
     t = ProcTable(btime=btime, ncpu=4, self_pid=2)
@@ -141,6 +141,18 @@ def rich_table(zombie=False, btime=1_700_000_000):
         "net/unix": NET_UNIX,
         "uptime": b"1000.00 4000.00\n",
     })
+    if kthread:
+        # what a kernel thread looks like: no executable, empty command line, no mappings, roll-up refused with ESRCH
+        import errno as _errno
+        p.exe = None
+        p.cmdline = b""
+        p.environ = b""
+        p.smaps = b""
+        p.smaps_rollup = _errno.ESRCH
+        p.fds = {}
+        p.statm = (0, 0, 0, 0, 0, 0, 0)
+        p.threads = None
+        p.comm = b"kworker/0:1-eve"
     if zombie:
         t.exit(50, 0)
     return t, 50
